@@ -59,3 +59,28 @@ Definition tw_assign (t : tower) (bell : nat) (uid : Z) : result tower :=
 Definition tw_size_change (t : tower) (n : nat) : tower * bool :=
   if n =? tw_size t then (t, false)
   else (set_bells (set_assigned t (filter (fun bu => fst bu <=? n) (tw_assigned t))) (repeat true n), true).
+
+(* ---------- the view as a fold over the tower-related server messages ---------- *)
+Inductive tmsg :=
+| TBellRung (state : list bool) (who : nat)
+| TGlobal (state : list bool)
+| TUserEntered (uid : Z) (name : ustring)
+| TUserList (l : list (Z * ustring))
+| TUserLeft (uid : Z)
+| TAssign (bell : nat) (uid : Z)
+| TSizeChange (n : nat).
+
+(* the effect of one message on the view (an exception inside a handler leaves the view as it was
+   at the raise point, which for all seven handlers is what is returned here) *)
+Definition tower_step (t : tower) (m : tmsg) : tower :=
+  match m with
+  | TBellRung state _ => set_bells t state
+  | TGlobal state => set_bells t state
+  | TUserEntered uid name => tw_user_entered t uid name
+  | TUserList l => tw_user_list t l
+  | TUserLeft uid => tw_user_left t uid
+  | TAssign bell uid => match tw_assign t bell uid with Ok t' => t' | Err _ => t end
+  | TSizeChange n => fst (tw_size_change t n)
+  end.
+
+Definition tower_run (h : list tmsg) : tower := fold_left tower_step h tower0.
